@@ -19,6 +19,7 @@ class Sym:
         self.b = body
         self.defs = body.defs()
         self._cache = {}
+        self.opaque = set()   # locals never expanded (e.g. the slots of a derived fn)
         self.names = {}
         for d in body.raw["debug"]:
             p = d["p"]
@@ -41,6 +42,8 @@ class Sym:
         if 1 <= l <= self.b.arg_count:
             # parameters that are reassigned are still treated as the parameter
             return ("param", l, self.names.get(l, "_%d" % l))
+        if l in self.opaque:
+            return ("local", l)
         if l in self._cache:
             return self._cache[l]
         if depth > MAX_DEPTH:
